@@ -6,6 +6,7 @@ import SluProofs.Props.C02
 import SluProofs.Props.C14
 import Slu.Model.IluDrop
 import SluProofs.Lemmas.IluDrop
+import SluProofs.Lemmas.QSelect
 /-
 C15 — Incomplete LU never breaks down and is exact when dropping is off.
 
@@ -835,3 +836,32 @@ theorem dropRow_secondary_uses_neighbour_norm :
   decide +kernel
 
 end Slu.IluDrop
+
+/-! ## `[sd]qselect` (Slu/Model/QSelect.lean) -/
+namespace Slu.QSelect
+
+/-- **C15 (qselect terminates).** For every `<` that is asymmetric — IEEE `<` on `double`/`float` with NaN (every
+comparison with NaN false), and `Rat` — every array, every `1 ≤ n ≤ A.size` and every `k` (any integer: it is clamped),
+the model of `[sd]qselect` (the routine as it is since the `fix:` commit fba5c82) returns: the explicit fuel `n + 1` of
+the outer loop and `n` of the partition loop is never exhausted. -/
+theorem qselect_terminates {R : Type} [Inhabited R] [LT R] [DecidableLT R] (hasym : ∀ a b : R, a < b → ¬ b < a)
+    (A : Array R) (n : Nat) (k : Int) (hn : 1 ≤ n) (hA : n ≤ A.size) : (qselect n A k).isSome = true := by
+  obtain ⟨v, A', e, _⟩ := qsel_some hasym (n + 1) A 0 n (clampK n k) hn (by omega) (by omega) (clampK_lt n k hn)
+  unfold qselect; rw [e]; rfl
+
+/-- **C15 (qselect permutes).** The array afterwards is a permutation of the array before (ties, NaN included), and
+nothing at or beyond index `n` is touched. -/
+theorem qselect_perm {R : Type} [Inhabited R] [LT R] [DecidableLT R] (hasym : ∀ a b : R, a < b → ¬ b < a)
+    (A : Array R) (n : Nat) (k : Int) (hn : 1 ≤ n) (hA : n ≤ A.size) (v : R) (A' : Array R)
+    (h : qselect n A k = some (v, A')) : A'.toList.Perm A.toList ∧ ∀ y, n ≤ y → A'[y]! = A[y]! := by
+  obtain ⟨v', A'', e, e2, e3⟩ := qsel_some hasym (n + 1) A 0 n (clampK n k) hn (by omega) (by omega) (clampK_lt n k hn)
+  unfold qselect at h; rw [e] at h
+  have : A'' = A' := by injection h with h; exact (Prod.mk.inj h).2
+  subst this
+  exact ⟨Array.perm_iff_toList_perm.mp e2, fun y hy => e3 y (Or.inr (by omega))⟩
+
+/-- the hypotheses are satisfiable: the IEEE-like order where one element is unordered with everything -/
+example : (qselect 7 (#[3, 1, 4, 1, 5, 9, 2] : Array Int) 2) = some (4, #[9, 5, 4, 3, 2, 1, 1]) := by decide +kernel
+example := qselect_terminates (R := Int) (fun a b h => by omega) #[3, 1, 4, 1, 5, 9, 2] 7 (-3) (by decide) (by decide)
+
+end Slu.QSelect
